@@ -17,6 +17,7 @@ GRIDS = {
     "uneven6": [2000, 2002, 2003, 2007, 2008, 2020],
     "unit5": [7, 8, 9, 10, 11],
     "const10": [1900, 1910, 1920, 1930],
+    "coarse_fine6": [2000, 2008, 2012, 2014, 2015, 2016],
 }
 PROPS = ["Prop_C03", "Prop_C09", "Prop_C10", "Prop_C16"]
 
@@ -50,6 +51,10 @@ def config_list(tier, seed):
         # first is unspecified, the second must not be disturbed)
         ("unit4", 2, "fixed", "middle", "lab", 2, 0, 30),
         ("uneven4", 4, "fixed", "start", "both", 4, 0, 20),
+        # later cohorts stay in the stock for MORE steps than the first one: lifetimes growing fast over the cohorts, and a
+        # constant lifetime on a grid that goes from coarse to fine
+        ("unit5", 1, "fixed", "middle", "cohort", 12, 16, 0),
+        ("coarse_fine6", 2, "fixed", "middle", "lab", 96, 0, 8),
     ]
     rnd = random.Random(seed * 7919 + 13)
     extra = []
